@@ -33,26 +33,26 @@ package server
 //@ func (s *server) Update(opt ServerOption)
 //@   requires [recv] s != nil
 //@   requires [unlocked] !anyheld(s.mutex)
-//@   modifies s.locations, s.cache, s.compress, s.compressMinLength, s.compressContentTypeFilter
+//@   modifies s.locations, s.cache, s.compress, s.compressMinLength, s.compressContentTypeFilter, s.listening, s.listenAddr, s.ln, s.e
 //@   nopanic
 //@   atunlock [fresh-equiv] configured(s, opt)
 
 //@ func (s *server) GetLocations() (names []string)
 //@   requires [recv] s != nil
 //@   requires [unlocked] !anyheld(s.mutex)
-//@   modifies s.locations, s.cache, s.compress, s.compressMinLength, s.compressContentTypeFilter
+//@   modifies s.locations, s.cache, s.compress, s.compressMinLength, s.compressContentTypeFilter, s.listening, s.listenAddr, s.ln, s.e
 //@   nopanic
 
 //@ func (s *server) GetCompress() (name string, minLength int, filter *regexp.Regexp)
 //@   requires [recv] s != nil
 //@   requires [unlocked] !anyheld(s.mutex)
-//@   modifies s.locations, s.cache, s.compress, s.compressMinLength, s.compressContentTypeFilter
+//@   modifies s.locations, s.cache, s.compress, s.compressMinLength, s.compressContentTypeFilter, s.listening, s.listenAddr, s.ln, s.e
 //@   nopanic
 
 //@ func (s *server) GetCache() (name string)
 //@   requires [recv] s != nil
 //@   requires [unlocked] !anyheld(s.mutex)
-//@   modifies s.locations, s.cache, s.compress, s.compressMinLength, s.compressContentTypeFilter
+//@   modifies s.locations, s.cache, s.compress, s.compressMinLength, s.compressContentTypeFilter, s.listening, s.listenAddr, s.ln, s.e
 //@   nopanic
 
 // ---- cache keys (C06) -------------------------------------------------------------------------
@@ -143,13 +143,13 @@ package server
 //@ func (ss *servers) Reset(opts []ServerOption)
 //@   requires [recv] ss != nil
 //@   requires [nolocks] nolocks()
-//@   modifies ss.m.dom, ss.m.vals, server::locations, server::cache, server::compress, server::compressMinLength, server::compressContentTypeFilter
+//@   modifies ss.m.dom, ss.m.vals, server::locations, server::cache, server::compress, server::compressMinLength, server::compressContentTypeFilter, server::listening, server::listenAddr, server::ln, server::e
 //@   ensures [exact]     forall k any :: typeis(k, "string") ==> (ss.m.dom[k] <==> configuredAddr(opts, unbox(k, "string")))
 //@   ensures [survivors] forall k any :: old(ss.m.dom[k]) && ss.m.dom[k] ==> ss.m.vals[k] == old(ss.m.vals[k])
 //@   ensures [others]    forall k any :: !typeis(k, "string") ==> ss.m.dom[k] == old(ss.m.dom[k])
 //@   loop 0: modifies nothing
 //@   loop 0: invariant [idx]   -1 <= $idx && $idx < len(result) && nolocks()
-//@   loop 1: modifies ss.m.dom, ss.m.vals, server::locations, server::cache, server::compress, server::compressMinLength, server::compressContentTypeFilter
+//@   loop 1: modifies ss.m.dom, ss.m.vals, server::locations, server::cache, server::compress, server::compressMinLength, server::compressContentTypeFilter, server::listening, server::listenAddr, server::ln, server::e
 //@   loop 1: invariant [idx]   -1 <= $idx && $idx < len(opts) && ss.m != nil && nolocks()
 //@   loop 1: invariant [keep]  forall k any :: typeis(k, "string") && !configuredAddr(opts, unbox(k, "string")) ==> !ss.m.dom[k]
 //@   loop 1: invariant [added] forall j int :: 0 <= j && j <= $idx ==> ss.m.dom[box(opts[j].Addr)]
